@@ -21,6 +21,8 @@
 (*    pre    : rate of a preliminary resample of the same source (0: none), *)
 (*    hist, N2, base2 : history of the loads, see FileRow,                  *)
 (*    decl   : samplerate declared on a hand-built Recording (0: from_file), *)
+(*    padded, bnd : compute_spectrogram options: padded 1 | 0; boundary      *)
+(*             "default" (not passed) | "zeros" | "even" | "none" (None),    *)
 (*    ops    : kind "chain": operations applied one after the other to the  *)
 (*             source array, <<name, a, b>> with name = "resamp" (a = target *)
 (*             rate), "filter" (a, b = low / high cutoff, 0 = none), "spec"  *)
@@ -112,6 +114,7 @@ MustProduceN(c, srcOk, srcN) ==
       [] c.kind = "resamp" -> srcOk /\ srcN >= 2 /\ (srcN * c.target >= 2 * Sr(c) \/ (ExactCo(c) /\ srcN * c.target >= Sr(c)))
       [] c.kind = "spec"   -> /\ srcOk /\ Exact(c)
                               /\ c.h * Sr(c) >= c.tden /\ c.w * Sr(c) >= c.tden
+                              /\ c.bnd # "even"            \* (scipy refuses an even extension longer than the signal)
                               /\ (c.w * Sr(c)) \div c.tden <= srcN
 
 (***************************************************************************)
@@ -127,13 +130,15 @@ ImplNp0(c)       == (c.w * Sr(c)) \div c.tden                    \* int(window_s
 ImplNov(c)       == IF c.w >= c.h THEN ((c.w - c.h) * Sr(c)) \div c.tden ELSE 0 - (((c.h - c.w) * Sr(c)) \div c.tden)
 ImplNp(c, srcN)  == Min(ImplNp0(c), srcN)                        \* scipy _triage_segments: nperseg <= input length
 ImplSpecRaises(c, srcN) == ImplNp0(c) < 1 \/ ImplNov(c) >= ImplNp(c, srcN)
-\* zero extension by nperseg/2 on both sides, zero padding to a whole number of hops, one frame per hop
-ImplFrames(c, srcN) ==
+\* extension by nperseg/2 on both sides (unless boundary is None), zero padding to a whole number of hops (if padded),
+\* one frame per hop
+ImplFramesB(c, srcN, noext, padded) ==
     LET np  == ImplNp(c, srcN)
         hop == np - ImplNov(c)
-        L0  == srcN + 2 * (np \div 2)
-        L   == L0 + (((0 - (L0 - np)) % hop) % np)
+        L0  == srcN + (IF noext THEN 0 ELSE 2 * (np \div 2))
+        L   == L0 + (IF padded THEN ((0 - (L0 - np)) % hop) % np ELSE 0)
     IN  (L - np) \div hop + 1
+ImplFrames(c, srcN) == ImplFramesB(c, srcN, c.bnd = "none", c.padded = 1)
 ImplBins(c, srcN) == ImplNp(c, srcN) \div 2 + 1                  \* rfftfreq(nperseg)
 
 (***************************************************************************)
@@ -293,7 +298,9 @@ Holds(cl, o) ==
                              /\ gen => (IF c.kind = "rec" THEN StartsAtZero(r.axes[1])
                                     ELSE IF c.kind = "clip"
                                          THEN r.axes[1].n > 0 => \E off \in AccOff(o) : TimeIs(r.axes[1].c0, off, Sr(c), ExactCo(c))
-                                         ELSE StartsAtSource(r.axes[1], c))
+                                         \* boundary=None: by scipy's definition the first frame is centred half a window into
+                                         \* the signal; the caller asked for it, so "starts at the source's start" is not demanded
+                                         ELSE (c.kind = "spec" /\ c.bnd = "none") \/ StartsAtSource(r.axes[1], c))
       [] cl = "FreqIncreasing" -> hasf => AxisIncreasing(r.axes[2])
       [] cl = "FreqWithinStep" -> hasf => AxisWithin(r.axes[2])
       [] cl = "FreqStart"      -> hasf => StartsAtZero(r.axes[2])
@@ -308,7 +315,7 @@ Holds(cl, o) ==
       [] cl = "FirstResult/TimeWithinStep" -> \A x \in Reobs(r, "derived") : AxisWithin(r.reobs[x])
       [] cl = "FirstResult/TimeStart"      -> \A x \in Reobs(r, "derived") : StartsAtSource(r.reobs[x], c)
       [] cl = "Drift/SpecShape" ->
-            (c.kind = "spec" /\ Exact(c) /\ r.src_ok /\ r.src_n >= 1) =>
+            (c.kind = "spec" /\ Exact(c) /\ r.src_ok /\ r.src_n >= 1 /\ c.bnd # "even") =>
                IF ImplSpecRaises(c, r.src_n) THEN ~ok
                ELSE ok /\ Len(r.axes) = 2 /\ r.axes[1].n = ImplFrames(c, r.src_n) /\ r.axes[2].n = ImplBins(c, r.src_n)
       [] cl = "Drift/ClipFloatFloor" ->
